@@ -413,6 +413,49 @@ fn run_case(seed: u64, i: u64, corpus: &Corpus, tier: &str) -> (CaseOut, String,
     }
     return (out, format!("pattern matrix with {n} single-arm deletions"), None);
   }
+  if i % 10 == 2 {
+    // a local used outside its scope: a use of one local is replaced by the name of another local
+    // of the same function; the fault is only kept when the independent scope resolver finds no
+    // binding for the new occurrence (e.g. an if-let binder used in the else side, a match-arm
+    // binder used in another arm, a lambda parameter used after the lambda)
+    let base = vcore::exprgen::binder_zoo(&mut rng);
+    let mut heap = samlang_heap::Heap::new();
+    if front::check_project(&mut heap, &Project::single("Zoo", &base).with_std()).errors.has_errors() {
+      out.base_rejected = true;
+      return (out, "binder zoo (base rejected)".into(), None);
+    }
+    let Ok(parsed) = vcore::fmtcheck::parse(&base) else { return (out, "binder zoo (unparsable)".into(), None) };
+    let tree = Walker::new(&parsed.heap).module(&parsed.module);
+    let bindings = vcore::scope::resolve(&tree);
+    let mut tried = 0;
+    let mut attempts = 0;
+    while tried < 8 && attempts < 60 && !bindings.is_empty() {
+      attempts += 1;
+      let x = &bindings[rng.below(bindings.len())];
+      if x.uses.is_empty() {
+        continue;
+      }
+      let site = x.uses[rng.below(x.uses.len())];
+      let others: Vec<&vcore::scope::Binding> = bindings.iter().filter(|y| y.member == x.member && y.name != x.name && y.name != "this").collect();
+      if others.is_empty() {
+        continue;
+      }
+      let y = others[rng.below(others.len())];
+      let Some(mutated) = splice(&base, &site, &y.name) else { continue };
+      let Ok(p2) = vcore::fmtcheck::parse(&mutated) else { continue };
+      if !p2.syntax_errors.is_empty() {
+        continue;
+      }
+      let tree2 = Walker::new(&p2.heap).module(&p2.module);
+      let resolved = vcore::scope::resolve(&tree2).iter().any(|b| b.name == y.name && b.uses.iter().chain(b.defs.iter()).any(|l| l.start == site.start));
+      if resolved {
+        continue; // the other local is in scope there: not a guaranteed error
+      }
+      tried += 1;
+      judge_mutant(&Project::single("Zoo", &mutated).with_std(), "Zoo", "Zoo", "variable-used-outside-its-scope", &format!("`{}` ({}) written where `{}` was used, at {}:{}", y.name, y.kind, x.name, site.start.0 + 1, site.start.1 + 1), &mut out);
+    }
+    return (out, format!("binder zoo with {tried} out-of-scope uses"), None);
+  }
   if i % 10 == 8 {
     // arity / field errors in patterns of every binding construct
     let base = vcore::exprgen::binder_zoo(&mut rng);
